@@ -26,7 +26,7 @@ THEOREMS = ['C20_sem_extensional_body', 'C20_sem_extensional_code', 'C20_sem_ext
             'C20_chain_member_python_vs_compiled', 'C20_mixed_sources_interchangeable', 'C20_mixed_sources_interchangeable_source', 'C20_python_then_script_is_one_definition',
             'C20_chained_python_predicate_is_first_clauses', 'C20_chain_engine_monotone', 'C20_exception_passthrough_chain_member',
             'C20_exception_at_the_chain', 'C20_chain_engine_with_exceptions_refines', 'C20_chain_engine_with_exceptions_built',
-            'C20_chain_exception_provenance', 'C20_chain_exception_unchanged']
+            'C20_chain_exception_provenance', 'C20_chain_exception_unchanged', 'C20_consumers_yield_value_irrelevant']
 IMPORTS = ['Lang.Ast', 'Sem.Machine', 'Sem.RunSem', 'Sem.Native', 'Sem.RunNative', 'Sem.NativeChain', 'Sem.NativeChainExc', 'Sem.RunNativeChain']
 CASE_TIMEOUT = 30
 COQ_CHUNK = 12
@@ -49,8 +49,17 @@ RULE = ('random programs with conjunction, disjunction, if-then-else, \\+, cut, 
         'random: 3-7 operations), next to a script of rules that call m under conjunction, cut, if-then-else, \\+, once/1, findall/3, call/N; '
         'queries also after a prefix of the sequence.  Compared: the engine, its all-compiled twin built by the same sequence (each '
         'fixed-arity register_function with >= 1 row replaced by load_script(its facts, overwrite=True)) and the Coq engine with chains of '
-        'definitions per key (Sem/NativeChainExc.v cqueryE) for both; non-trivial there: >= 3 operations and some query has an answer.')
-TRUSTED_BASE = ['inspect.signature arity inference is exercised, not modelled: the model takes the resulting key']
+        'definitions per key (Sem/NativeChainExc.v cqueryE) for both; non-trivial there: >= 3 operations and some query has an answer.  '
+        'Round 4: the registered callables are of every kind (def, lambda, bound / class / static method, functools.partial, callable object, '
+        'functools.wraps-decorated *args and (*args, **kw) wrappers, parameters with defaults; with explicit arity also keyword-only parameters, '
+        'partial with a keyword, *args versions; variadic: the *args versions) and the key the engine stores is compared with the documented one; '
+        'Python predicates also re-enter the engine while they are solved (form requery: their rows are facts of a hidden dynamic predicate of the '
+        'same engine queried inside the loop; bounded: snapshot through yp.evaluate_bounded; asserting: assert_fact inside the loop); cut-free '
+        'conjunctive rules are written in Python too (re-entrant twins; the model keeps them compiled); every query that plain iteration '
+        'finishes (no raising predicate) is run again on both engines through evaluate_bounded (limit at / above the one in force: same answers '
+        'and flags; default limit: a prefix), list() and next()+close(), after which no variable is bound and the recursion limit is unchanged.')
+TRUSTED_BASE = ['inspect.signature arity inference is exercised (callables of every kind; the stored key is checked against the documented one), not modelled: the model takes the resulting key',
+                'the interpreter recursion limit and re-entrant Python predicates are not in the model: tied by the twin oracle (engine with Python predicates = all-compiled engine = model)']
 ASSUMPTIONS = ['the Python predicate unifies its arguments with each row and yields once per solution (well-behaved)']
 
 class Boom(Exception):
@@ -1080,7 +1089,7 @@ def nontrivial(case, io):
     return bool(big) and bool(cs & {'cut', 'not', 'if', 'call:call', 'call:once', 'call:findall'})
 
 def distribution(cases, obs):
-    d = {'style': {}, 'yield': {}, 'form': {}, 'natives_per_case': {}, 'queried_before_registration': sum(1 for c in cases if c.get('pre') is not None), 're_registered': sum(1 for c in cases if c.get('decoy') and c.get('pre')), 'raising': 0, 'with_dynamic_facts': 0, 'ends_A': {},
+    d = {'style': {}, 'yield': {}, 'form': {}, 'kind': {}, 'cases_with_rules_written_in_python': 0, 'queries_run_behind_all_consumer_apis': 0, 'natives_per_case': {}, 'queried_before_registration': sum(1 for c in cases if c.get('pre') is not None), 're_registered': sum(1 for c in cases if c.get('decoy') and c.get('pre')), 'raising': 0, 'with_dynamic_facts': 0, 'ends_A': {},
          'python_predicate_calls': 0, 'constructs': {}, 'replaced_rows': {}, 'mixed_sources': {'cases': 0, 'sequences': {}, 'chained_keys': 0}}
     for c, o in zip(cases, obs):
         if c.get('kind') == 'mixed':
@@ -1102,6 +1111,11 @@ def distribution(cases, obs):
         for s in c['native']:
             for k in ('style', 'yield', 'form'):
                 d[k][s[k]] = d[k].get(s[k], 0) + 1
+            kd = '%s %s' % (s['style'], s.get('kind') or 'def')
+            d['kind'][kd] = d['kind'].get(kd, 0) + 1
+        d['cases_with_rules_written_in_python'] += bool(c.get('twins'))
+        if isinstance(o, dict) and 'A' in o:
+            d['queries_run_behind_all_consumer_apis'] += sum(1 for q in o['A'] if q.get('cons'))
         n = str(len(c['native']))
         d['natives_per_case'][n] = d['natives_per_case'].get(n, 0) + 1
         d['raising'] += any(s.get('raise') is not None for s in c['native'])
